@@ -298,6 +298,9 @@ Proof.
   - (* LGet *)
     destruct (t_req (cfg t)); try discriminate. inversion H; subst; clear H.
     eapply (inv_same_class s t (PDone (RRead (alookup n (objs s))))); eauto; rewrite Ep; cbn; congruence.
+  - (* LFault *)
+    destruct (is_mut (t_req (cfg t)) && Nat.leb k 3); [|discriminate]. inversion H; subst; clear H.
+    eapply (inv_same_class s t (PEnd (RErr (Nat.leb 2 k)))); eauto; rewrite Ep; cbn; congruence.
 Qed.
 
 Lemma inv_run sched : forall s s', Inv s -> run ideal cfg s sched = Some s' -> Inv s'.
